@@ -436,3 +436,7 @@ func (p *Program) Inlined(opt ResolveOpt) (*Program, error) {
 	main = append(main, r.Body...)
 	return &Program{Main: main, Files: map[string][]Line{}, Config: p.Config, ConfigIsDir: p.ConfigIsDir}, nil
 }
+
+// Lookup finds the lines of an include file the way the tool searches for it (include/ before exclude/, with or
+// without the .ra extension).
+func (p *Program) Lookup(name string) ([]Line, bool) { return p.lookup(name) }
